@@ -39,6 +39,10 @@ type c10Input struct {
 	// JSON (used instead of Sets when non-empty): indexes into c10JSONLines; the labels of the series come out of
 	// `| json`, i.e. as numbers, booleans and strings rather than as plain string attributes.
 	JSON []int `json:"json,omitempty"`
+	// Turns: the range of the aggregation is Turns milliseconds instead of 10 s (records are 1 s apart, the range
+	// query has one step per second): with 500 the series take turns, one per step; from 1000 on windows overlap
+	// and expire partially.
+	Turns int `json:"turns_ms,omitempty"`
 }
 
 // c10JSONLines: the same label names with values of different JSON types; as label values "200" and 200 are the same.
@@ -138,14 +142,33 @@ func c10Build(in c10Input) ([]mockq.Rec, refmodel.Expr) {
 	return data, e
 }
 
+// c10SetRange rewrites the range of every range aggregation inside e.
+func c10SetRange(e refmodel.Expr, ns int64) {
+	switch x := e.(type) {
+	case *refmodel.RangeAgg:
+		x.RangeNS = ns
+	case *refmodel.VecAgg:
+		c10SetRange(x.X, ns)
+	case *refmodel.Bin:
+		c10SetRange(x.L, ns)
+		c10SetRange(x.R, ns)
+	}
+}
+
 func c10Check(r *vkit.Run, in c10Input, replay []int) {
 	data, expr := c10Build(in)
+	if in.Turns > 0 {
+		c10SetRange(expr, int64(in.Turns)*1e6)
+	}
 	start := (c09Base + 2) * sec
 	end, step := start, int64(0)
 	if in.Range {
 		// the grid starts with the first record, so that samples keep arriving at later steps
 		start = c09Base * sec
 		end, step = start+3*sec, sec
+		if in.Turns > 0 {
+			end = start + int64(len(in.Sets)+len(in.Explicit)+in.Turns/1000+1)*sec // until every window has expired
+		}
 	}
 	times := gridTimes(start, end, step)
 	exp, _, _, _ := expectGrid(expr, data, times, refmodel.Convention{})
@@ -178,7 +201,7 @@ func c10Check(r *vkit.Run, in c10Input, replay []int) {
 	if st.Capped {
 		r.Cap("map-order exploration stopped early")
 	}
-	r.State(vkit.J(in.Sets) + vkit.J(in.Explicit) + vkit.J(in.JSON) + in.Shape + in.Grouping + fmt.Sprint(in.Range))
+	r.State(vkit.J(in.Sets) + vkit.J(in.Explicit) + vkit.J(in.JSON) + fmt.Sprint(in.Turns) + in.Shape + in.Grouping + fmt.Sprint(in.Range))
 	if r.WantSample() && len(in.Sets) >= 2 && in.Grouping != "" {
 		r.Sample(map[string]any{"input": in, "query": expr.Text(), "label_sets": c10Describe(in.Sets), "map_order_executions": st.Executions})
 	}
@@ -361,6 +384,33 @@ func c10Run(r *vkit.Run) {
 			r.NonTrivial()
 		}
 	}
+	// series that take turns and windows that expire partially: every sequence of 3..5 records over two label sets
+	// (and a third one in the middle), one record per second, ranges of 1 s and 2 s, one step per second
+	for length := 3; length <= 5; length++ {
+		for mask := 0; mask < 1<<length; mask++ {
+			idx++
+			if !r.Mine(idx) || r.Stop() {
+				continue
+			}
+			seq := make([]int, length)
+			for i := range seq {
+				seq[i] = []int{5, 0}[(mask>>i)&1] // {a="b"} and {a="bc"}
+			}
+			if mask%3 == 0 {
+				seq[length/2] = 2 // {a="b", c="d"}
+			}
+			for _, turns := range []int{500, 1000, 2000, 3000} {
+				for _, shape := range []string{"count", "sum-count", "lit-left"} {
+					g := ""
+					if shape != "count" {
+						g = "by(a)"
+					}
+					c10Check(r, c10Input{Sets: seq, Shape: shape, Grouping: g, Range: true, Bound: 1, Turns: turns}, nil)
+				}
+			}
+			r.NonTrivial()
+		}
+	}
 	// many series: beyond every small-map / small-slice threshold (9, 17, 65, 300 distinct label sets, plus duplicates)
 	for _, nser := range []int{9, 17, 65, 300} {
 		idx++
@@ -383,7 +433,7 @@ func c10Run(r *vkit.Run) {
 		r.NonTrivial()
 	}
 	r.Count("separator_collision_pairs", int64(len(coll)))
-	r.Note("bounds", fmt.Sprintf("all tuples of 1..%d label sets from a 12-set colliding alphabet x {count_over_time, sum by/without(...) of it, avg_over_time by/without(...)} x 6 groupings x {instant, 3-step range}; all tuples of 10 JSON lines whose label values are numbers, booleans and strings (through | json) x 6 groupings; every map iteration inside Eval is a choice point, deviation bound %d (complete rotation set: all label maps have <= 8 entries)", n, bound))
+	r.Note("bounds", fmt.Sprintf("all tuples of 1..%d label sets from a 12-set colliding alphabet x {count_over_time, sum by/without(...) of it, avg_over_time by/without(...)} x 6 groupings x {instant, 3-step range}; all tuples of 10 JSON lines whose label values are numbers, booleans and strings (through | json) x 6 groupings; every sequence of 3..5 records over 2-3 label sets under ranges of 0.5, 1, 2 and 3 s with one step per second (series taking turns, partial expiry); every map iteration inside Eval is a choice point, deviation bound %d (complete rotation set: all label maps have <= 8 entries)", n, bound))
 }
 
 func c10Replay(r *vkit.Run, v vkit.Violation) *vkit.Violation {
